@@ -390,7 +390,7 @@ PROPS = {
     },
     "C18": {
         "units": ["apply"],
-        "bounded_checks": ["simp"],
+        "bounded_checks": ["simp", "strong", "external", "trans"],
         "level": "other",
         "property_obligations": ["Formula::apply_fixpoint", "Formula::apply", "lemma_sapply_preserves_ht", "lemma_sapply_preserves_cl"],
         "carriers": [],
